@@ -24,7 +24,12 @@ type c11Out struct {
 	Unknown bool // set whose outcome is unknown (kept open to the end)
 }
 
-func init() { c11CheckHistory = c11Porcupine }
+func init() {
+	c11CheckHistory = c11Porcupine
+	c11CheckHistoryLatent = func(ops []c11Op, timeout time.Duration) (string, []string) {
+		return c11PorcupineWith(c11LatentModel, c11ToOperationsLatent(ops), timeout)
+	}
+}
 
 func c11Model(partition bool) porcupine.Model {
 	m := porcupine.Model{
@@ -104,8 +109,89 @@ func c11ToOperations(ops []c11Op) []porcupine.Operation {
 }
 
 func c11Porcupine(ops []c11Op, timeout time.Duration) (string, []string) {
+	return c11PorcupineWith(c11Model, c11ToOperations(ops), timeout)
+}
+
+// ---------------------------------------------------------------- latent model
+//
+// Model for the histories with abandoned / stalled sets and re-committed
+// offsets (c11Env.repeat).  State = the offset of the most recent ACKNOWLEDGED
+// set (cur) plus the offsets of the FAILED sets that took their place in the
+// order after it (latent).  A failed set never becomes "the most recent set
+// that succeeded", but its message may be in the cursors log, so a fetch may
+// show it: a fetch is legal iff it returns cur or a latent offset.  An
+// acknowledged set replaces cur and clears the latent ones (it is behind them
+// in the log and in the cache).  A failed set's operation ends when the
+// harness saw its message committed (c11Op.Committed), else after everything.
+
+type c11LatState struct {
+	cur int64
+	lat []int64 // sorted, without duplicates
+}
+
+func c11LatentModel(partition bool) porcupine.Model {
+	m := c11Model(partition)
+	m.Init = func() interface{} { return c11LatState{cur: -1} }
+	m.Step = func(state, in, out interface{}) (bool, interface{}) {
+		st, i, o := state.(c11LatState), in.(c11In), out.(c11Out)
+		switch {
+		case i.Set && !o.Unknown:
+			return true, c11LatState{cur: i.Val}
+		case i.Set:
+			if i.Val == st.cur {
+				return true, st // showing it or not makes no difference
+			}
+			at := sort.Search(len(st.lat), func(j int) bool { return st.lat[j] >= i.Val })
+			if at < len(st.lat) && st.lat[at] == i.Val {
+				return true, st
+			}
+			lat := make([]int64, 0, len(st.lat)+1)
+			lat = append(append(append(lat, st.lat[:at]...), i.Val), st.lat[at:]...)
+			return true, c11LatState{cur: st.cur, lat: lat}
+		}
+		if o.Val == st.cur {
+			return true, st
+		}
+		at := sort.Search(len(st.lat), func(j int) bool { return st.lat[j] >= o.Val })
+		return at < len(st.lat) && st.lat[at] == o.Val, st
+	}
+	m.Equal = func(a, b interface{}) bool {
+		x, y := a.(c11LatState), b.(c11LatState)
+		if x.cur != y.cur || len(x.lat) != len(y.lat) {
+			return false
+		}
+		for i := range x.lat {
+			if x.lat[i] != y.lat[i] {
+				return false
+			}
+		}
+		return true
+	}
+	return m
+}
+
+// c11ToOperationsLatent: like c11ToOperations, but a failed set that the
+// harness saw committed ends at that observation.
+func c11ToOperationsLatent(ops []c11Op) []porcupine.Operation {
 	h := c11ToOperations(ops)
-	res, _ := porcupine.CheckOperationsVerbose(c11Model(true), h, timeout)
+	idx := 0
+	for _, o := range ops {
+		switch {
+		case o.Kind == "set" && o.OK, o.Kind == "fetch" && o.OK:
+			idx++
+		case o.Kind == "set" && o.Refused != "":
+		case o.Kind == "set":
+			if o.Committed > o.Call {
+				h[idx].Return = o.Committed
+			}
+			idx++
+		}
+	}
+	return h
+}
+
+func c11PorcupineWith(model func(bool) porcupine.Model, h []porcupine.Operation, timeout time.Duration) (string, []string) {
+	res, _ := porcupine.CheckOperationsVerbose(model(true), h, timeout)
 	if res != porcupine.Illegal {
 		return string(res), nil
 	}
@@ -121,7 +207,7 @@ func c11Porcupine(ops []c11Op, timeout time.Duration) (string, []string) {
 		keys = append(keys, k)
 	}
 	sort.Strings(keys)
-	single := c11Model(false)
+	single := model(false)
 	for _, k := range keys {
 		if porcupine.CheckOperationsTimeout(single, by[k], 20*time.Second) == porcupine.Illegal {
 			bad = append(bad, k)
